@@ -21,6 +21,10 @@ def spell(rng, cfg, rate=0.25):
         cfg["spell"] = rng.choice(SPELLINGS[cfg["ver"]])
     if cfg.get("mqtt") and rng.random() < 0.3:
         cfg["pub_fail_every"] = rng.choice([2, 3, 5])     # the broker refuses every k-th publish
+    if rng.random() < 0.25:
+        cfg["debug_log"] = True        # the library's log statements are evaluated and formatted
+    if rng.random() < 0.2:
+        cfg["slow_jobs"] = True        # every job "takes" 0.2 s on the task module's timer (slow-job diagnostics run)
     return cfg
 
 
@@ -52,6 +56,7 @@ def impl_case(case):
     for f in sorted(glob.glob(str(core.VERIF / "harness" / "monitors_*.py"))):
         importlib.import_module("harness." + os.path.basename(f)[:-3])
     scratch = core.BUILD / "scratch" / f"{os.getpid()}"
+    core.debug_logging(bool(case["cfg"].get("debug_log")))     # a share of the cases runs with DEBUG logging on
     im = gwrun.Impl(case["cfg"], scratch)
     mons = [monitors.REGISTRY[n]() for n in case.get("monitors", [])]
     trk = monitors.Tracker(im)
